@@ -38,6 +38,7 @@ type SpecEnv struct {
 	lemma    bool
 	letDepth int
 	blk      *ssa.BasicBlock // block at which the clause is evaluated (loop header for invariants)
+	callee   bool            // a callee's contract applied at a call site: its names are the callee's, never renamed
 }
 
 func (x *Exec) evalSpec(e *SExpr, env *SpecEnv) (Term, error) {
@@ -188,6 +189,12 @@ func (env *SpecEnv) ident(name string) (SpecVal, error) {
 			g = gt
 		}
 		return SpecVal{V: tv(name), Go: g, So: so}, nil
+	}
+	// a variable the code has renamed since the contract was annotated (varnames.go)
+	if rm := x.root().rename; rm != nil && !env.callee && !env.lemma {
+		if nn, ok := rm[name]; ok {
+			name = nn
+		}
 	}
 	switch name {
 	case "true", "false":
@@ -379,7 +386,22 @@ func (env *SpecEnv) sel(e *SExpr) (SpecVal, error) {
 		if c, ok := obj.(*types.Const); ok {
 			return env.constVal(c), nil
 		}
-		return SpecVal{}, fmt.Errorf("%s.%s is not a constant", a.Pkg.Name(), e.Name)
+		// a package-level variable of an imported package (e.g. a library's default options)
+		if _, ok := obj.(*types.Var); ok && x.fn != nil && x.fn.Prog != nil {
+			if sp := x.fn.Prog.Package(a.Pkg); sp != nil {
+				if g, ok := sp.Members[e.Name].(*ssa.Global); ok {
+					gv := x.val(g)
+					if gv.Loc != nil {
+						return SpecVal{Cell: gv.Loc, Go: g.Type().(*types.Pointer).Elem()}, nil
+					}
+					// a struct-valued variable is modelled as a fixed reference to its fields
+					if _, isStruct := g.Type().(*types.Pointer).Elem().Underlying().(*types.Struct); isStruct {
+						return SpecVal{V: gv, Go: g.Type()}, nil
+					}
+				}
+			}
+		}
+		return SpecVal{}, fmt.Errorf("%s.%s is not a constant or a package-level variable", a.Pkg.Name(), e.Name)
 	}
 	// tuple component of a Go call result: f(x).0
 	if len(a.V.Tuple) > 0 && a.Tuple != nil {
